@@ -25,6 +25,7 @@
   * Decimals are written canonically (`canonDecimal`): `str(Decimal(s)) = s`.
 -/
 import JRV.Model.JsonClass
+import JRV.Model.LocalClasses
 import JRV.Model.Payload
 import JRV.Lemmas.JsonClass
 
@@ -735,6 +736,44 @@ theorem C07_local_classes (X : DumpCtx) (mods : List String) (classes : List (St
     have := congrArg String.length h0
     simp at this
 
+/- ---------- the class table as a program builds it (config.LocalClasses) ---------- -/
+
+/-- `Config.classes` after any program of registrations (`add(cls)`, `add(cls, name)`), re-registrations under a
+    name already taken, direct stores, removals and `clear()`: every name resolves to what the *last* statement
+    concerning it bound it to.  In particular a class registered again under the name of another class replaces it. -/
+theorem C07_registry_lookup (t : LocalClasses.Table) (ops : List LocalClasses.Op) (k : String) :
+    (LocalClasses.run t ops).lookup k = LocalClasses.lastBinding k (t.lookup k) ops :=
+  LocalClasses.lookup_run ops t k
+
+/-- Whatever was registered before under the same name (another class, a stale definition of the same class), after
+    `classes.add(cls, name)` and any further statements that do not concern that name, the name resolves to `cls`. -/
+theorem C07_registry_last_registration_wins (t : LocalClasses.Table) (pre post : List LocalClasses.Op)
+    (c cn : String) (name : Option String)
+    (hpost : ∀ op ∈ post, LocalClasses.effect (LocalClasses.keyOf cn name) op = Option.none) :
+    (LocalClasses.run t (pre ++ LocalClasses.Op.add c cn name :: post)).lookup (LocalClasses.keyOf cn name) = some c := by
+  rw [LocalClasses.lookup_run, LocalClasses.lastBinding_append]
+  simp only [LocalClasses.lastBinding, LocalClasses.effect, beq_self_eq_true, ↓reduceIte]
+  exact LocalClasses.lastBinding_untouched _ _ _ hpost
+
+/-- **Round trip with the class table in force, however it was built.**  When, for every class of module
+    `__main__`/`""`, the last statement of the program concerning its name registered *that* class, the round trip
+    of `C07_local_classes` holds with the table the program leaves in `Config.classes`. -/
+theorem C07_registered_roundtrip (X : DumpCtx) (mods : List String) (t0 : LocalClasses.Table)
+    (ops : List LocalClasses.Op) (v : PyVal)
+    (hH : noHandlers X.cfg = true) (hv : wfVal X v = true)
+    (hloc : ∀ e ∈ X.env, (e.2.module = "__main__" ∨ e.2.module = "") →
+      (∀ ch ∈ e.2.name.toList, ch ≠ '.') ∧ e.2.name ≠ "" ∧ validName e.2.name = true ∧
+        LocalClasses.lastBinding e.2.name (t0.lookup e.2.name) ops = some e.1)
+    (hmod : ∀ e ∈ X.env, ¬ (e.2.module = "__main__" ∨ e.2.module = "") →
+      validName (emitName e.2) = true ∧
+        (resolveClass ⟨X.env, mods⟩ (LocalClasses.run t0 ops) (emitName e.2)).1 = .ok e.1) :
+    ∃ d, dumpTop X Option.none Option.none Option.none v = .ok d ∧
+      (load ⟨X.env, mods⟩ (LocalClasses.run t0 ops) d).res = .ok (normalise v) := by
+  refine C07_local_classes X mods (LocalClasses.run t0 ops) v hH hv ?_ hmod
+  intro e he hm
+  obtain ⟨h1, h2, h3, h4⟩ := hloc e he hm
+  exact ⟨h1, h2, h3, by rw [LocalClasses.lookup_run]; exact h4⟩
+
 /- ---------- as a parameter and as a result of a remote call ---------- -/
 
 /-- **As a parameter.**  `jsonrpc.dump` (the client's `dumps(params, methodname, …, config)`, a call or a
@@ -847,5 +886,43 @@ example : ∃ rep, Payload.dump exCfg (dumpTop exX Option.none Option.none Optio
     ∃ rep', Payload.load exCfg (fun d => (load ⟨exEnv7, []⟩ exCfg.classes d).res) rep = .ok rep' ∧
       getD rep' "result" .none = normalise exVal ∧ getD rep' "id" .none = .int 7 :=
   C07_rpc_result exX [] exCfg exVal (.int 7) "id0" .none rfl (by decide) (by decide +kernel) (by decide +kernel) rfl (by simp)
+
+/-- Non-vacuity of the registry theorems: the name `Child` is first given to a stale definition (`StaleChild`, same
+    `__name__`), then registered again with the current class, an unrelated alias is added and removed: the table
+    left is the one of the examples above, and the round trip holds with it. -/
+private def exOps : List LocalClasses.Op :=
+  [.add "StaleChild" "Child" Option.none, .add "Other" "Other" (some "Alias"), .add "Child" "Child" Option.none, .del "Alias"]
+example : LocalClasses.run [] exOps = [("Child", "Child")] := by decide +kernel
+example : LocalClasses.lastBinding "Child" Option.none exOps = some "Child" := by decide +kernel
+example : ∃ d, dumpTop exX Option.none Option.none Option.none exVal = .ok d ∧
+    (load ⟨exEnv7, []⟩ (LocalClasses.run [] exOps) d).res = .ok (normalise exVal) :=
+  C07_roundtrip exX [] (LocalClasses.run [] exOps) exVal (by decide) (by decide +kernel) (by decide +kernel)
+/-- … and with a registration that keeps the first class of a name (`setdefault`) the table would name the stale
+    class: the hypothesis of `C07_registered_roundtrip` is about the *last* registration. -/
+example : LocalClasses.lastBinding "Child" Option.none [.add "StaleChild" "Child" Option.none, .add "Child" "Child" Option.none]
+    ≠ some "StaleChild" := by decide +kernel
+
+/-- Special values of the scalar-like classes are in the domain: every Decimal `str` can produce — infinities, quiet
+    and signalling NaNs with or without payload, negative zero, exponents — and the members of a `Flag` enumeration,
+    composite values and the empty flag included (`Perm(3)`, `Perm(0)`; the member table lists every value the
+    enumeration accepts). -/
+private def exEnvS : ClassEnv := [
+  ("Perm", { module := "pkg.mod", name := "Perm",
+             kind := .enum [("R", .int 1), ("W", .int 2), ("X", .int 4), ("R|W", .int 3), ("", .int 0), ("R|W|X", .int 7)] }),
+  ("Dec", { module := "decimal", name := "Decimal", kind := .decimal })]
+private def exXS : DumpCtx := { env := exEnvS, cfg := {}, H := fun _ _ _ _ _ => raise "none" }
+private def exValS : PyVal :=
+  .list [.obj "Dec" [("str", .str "-Infinity")], .obj "Dec" [("str", .str "NaN")], .obj "Dec" [("str", .str "-sNaN123")],
+         .obj "Dec" [("str", .str "1E+100")], .obj "Dec" [("str", .str "-0")], .obj "Dec" [("str", .str "0E-7")],
+         .obj "Dec" [("str", .str "1.5E-7")], .obj "Dec" [("str", .str "0.000001")], .obj "Dec" [("str", .str "9.99E+384")],
+         .dict [(.str "k", .obj "Perm" [("name", .str "R|W"), ("value", .int 3)])],
+         .obj "Perm" [("name", .str ""), ("value", .int 0)]]
+example : wfVal exXS exValS = true := by decide +kernel
+example : ∃ d, dumpTop exXS Option.none Option.none Option.none exValS = .ok d ∧
+    (load ⟨exEnvS, []⟩ [] d).res = .ok (normalise exValS) :=
+  C07_roundtrip exXS [] [] exValS (by decide) (by decide +kernel) (by decide +kernel)
+/-- Literals that are not what `str` writes are outside the domain (`Decimal("0.0000001")` prints as `1E-7`). -/
+example : canonDecimal "0.0000001" = false ∧ canonDecimal "1.00E+2" = false ∧ canonDecimal "+1" = false ∧
+    canonDecimal "NaN007" = false ∧ canonDecimal "infinity" = false ∧ canonDecimal "1E+0" = false := by decide +kernel
 
 end JRV.Props
